@@ -56,6 +56,8 @@ def program(rnd):
                     ops.append("rcancel")
                 else:
                     ops.append("wcancel")
+        if rnd.random() < 0.12:
+            ops.append("close")          # the owner is done with the connection (ignored by the driver while a request is pending)
         if ops:
             scripts.append((i, ops))
         return "%s %d %d %d" % (kind, i, ln, mn)
@@ -96,7 +98,7 @@ def main(c):
     c.cov["programs"] = len(progs)
     vlib.conformance(c, exe, progs, SD, "NetSslTrace", "NetSslTrace.cfg", "ssl", procs=8, shards=8, nontrivial=lambda ex: any(e.get("e") == "sslcall" for e in ex))
     c.cov["rule"] = ("random programs: 1..10 steps of read / write requests (lengths 1..5000, any minimum), cancellations, readiness changes and loop runs; callbacks that start "
-                     "follow-up requests or cancel the other direction (nested to depth 3); engine answers drawn per call from done-n / want-read / want-write / clean end / "
+                     "follow-up requests, cancel the other direction or close the context (nested to depth 3); engine answers drawn per call from done-n / want-read / want-write / clean end / "
                      "socket end / socket error / protocol error; executed by the real network_ssl.c and events_*.c on the fake kernel; every poke, engine call (position and "
                      "length offered, data written), registration, immediate registration, callback (count, data) and poll request validated by TLC against NetSslTrace.tla; "
                      "non-trivial = at least one engine call")
